@@ -10,6 +10,9 @@ from common import VERIF, Scratch, Undecided, log, run
 
 _cache = {}
 CRASH_KEYS = {"c10_sum": "sum_of_refs"}
+# witness programs: one per dependency set, so that curve-side searches do not compile the circuits crate
+CRATES = {"c19_regex": ("witness_circuits", "verif_witness_circuits"),
+          "c16_zkir": ("witness_zkir", "verif_witness_zkir")}
 
 
 def search(mode, seed, rounds):
@@ -28,14 +31,15 @@ def search(mode, seed, rounds):
 
 def _search(mode, seed, rounds, k):
     with Scratch("witness") as sc:
-        wdir = sc.path("verif_witness")
-        shutil.copytree(os.path.join(VERIF, "tools", "witness"), wdir)
+        cdir, cname = CRATES.get(mode, ("witness", "verif_witness"))
+        wdir = sc.path(cname)
+        shutil.copytree(os.path.join(VERIF, "tools", cdir), wdir)
         ct = sc.read("Cargo.toml")
-        ct2 = re.sub(r"members\s*=\s*\[", 'members = ["verif_witness", ', ct, count=1)
+        ct2 = re.sub(r"members\s*=\s*\[", 'members = ["%s", ' % cname, ct, count=1)
         if ct2 == ct:
             raise Undecided("could not add the witness crate to the workspace")
         sc.write("Cargo.toml", ct2)
-        rc, out, secs = run(["cargo", "run", "--offline", "-q", "-p", "verif_witness", "--", mode, str(seed), str(rounds)],
+        rc, out, secs = run(["cargo", "run", "--offline", "-q", "-p", cname, "--", mode, str(seed), str(rounds)],
                             cwd=sc.src, env={"CARGO_TARGET_DIR": sc.target}, timeout=3600)
         hits = {}
         done = False
